@@ -13,7 +13,7 @@ import (
 
 // C16: cache coherence, checked against a sequential executable model.
 
-var c16bases = []string{"/p", "/q", "/r", "/d/s"}
+var c16bases = []string{"/p", "/q.v2", "/r", "/d/s.part"} // some base names contain a dot (not a configured extension)
 
 const (
 	kPlain = iota
